@@ -16,17 +16,12 @@ def _p(pid, level, explanation, trusted=None):
 _p("C04", "other",
    "Static necessary conditions of 'macro expansion preserves meaning': per-field information-flow necessity (READ: a read of the field reaches the result; CTOR: a rebuilt node's constructor argument depends on the input's field) for MacroExpander and GateReplacer, splice-guard dependence, arity check dominating substitution (CFG), closure of gate statements through the macro lookup, and exhaustive visiting of Parameter positions. Decides those clauses for every input program; does not decide equality of meaning.")
 
-NOT_APPLICABLE = {
-    "C12": "The acceptance set of DiscoverSubcircuits is a statement about the values a small state machine takes over every "
-           "nesting and loop count; its only code-shaped consequences (no dereference of self.current while None; the collision "
-           "flag follows block.parallel) are decided under C16/C13. Anything stronger would freeze the walker's text and fire on "
-           "behaviour-preserving rewrites, so static analysis does not apply (DESIGN.md section 5).",
-}
+NOT_APPLICABLE = {}
 
 # properties whose rule sets are still being built in this round (removed from here as they land)
 PENDING = {
     f"C{n:02d}": "check under construction in this round (see DESIGN.md section 10); not yet claimed"
-    for n in range(1, 21) if n != 12
+    for n in range(1, 21)
 }
 
 _p("C05", "other",
@@ -261,3 +256,13 @@ ADDENDA9 = {
 for _pid, _txt in ADDENDA9.items():
     if _pid in PROPS:
         PROPS[_pid]["explanation"] += _txt
+
+
+_p("C12", "other",
+   "Narrow structural claim: the guards that the property's sentences name are present in DiscoverSubcircuits with the stated sense -- "
+   "a trace is opened on the prepare gate and closed on the measure gate (positive equality); a measure gate without an open trace is refused; "
+   "an ordinary gate met while no trace is open is refused; a closed trace is recorded; the two refusals for loop bodies that do not run exactly "
+   "once fire under `reps != 1`, the wrap-around one asking whether the trace open at entry was measured in the body; a trailing open trace is "
+   "dropped and an empty result returned only when there is none. The acceptance set as a whole -- a state machine over every nesting, loop "
+   "count and macro expansion -- is not decided (DESIGN.md section 5).")
+PENDING.pop("C12", None)
